@@ -222,4 +222,90 @@ theorem handle_complete_error (cfg : Cfg) (st : State) (op : Nat) (w : Bytes) (h
       · simp [deliver, h1, hv, cutOff_abortWith]
     · simp [h1] at h
 
+theorem content_violation_aborts (cfg : Cfg) (st : State) (hinv : Inv cfg st) (f : Frame)
+    (hv : frameViolation cfg (st.fragBuf.map (·.length)) f = none) (op : Nat) (z : Bool) (w : Bytes)
+    (hcomp : completes cfg (partOf st) f = some (op, z, w))
+    (herr : complete cfg st.dhist op z w = .error .badUtf8 ∨ complete cfg st.dhist op z w = .error .tooBigAfter) :
+    CutOff (stepFrame cfg st f) := by
+  unfold completes at hcomp
+  by_cases hcf : (isCtl f.opcode || !f.fin) = true
+  · simp [hcf] at hcomp
+  · simp only [hcf, Bool.false_eq_true, if_false] at hcomp
+    have hc : isCtl f.opcode = false := by
+      cases h : isCtl f.opcode <;> simp [h] at hcf ⊢
+    have hfin : f.fin = true := by
+      cases h : f.fin <;> simp [h, hc] at hcf ⊢
+    unfold frameViolation at hv
+    simp only [hc, Bool.false_eq_true, if_false] at hv
+    cases hfb : st.fragBuf with
+    | some buf =>
+      simp only [partOf, hfb, Option.map_some, Option.some.injEq, Prod.mk.injEq] at hcomp
+      obtain ⟨rfl, rfl, rfl⟩ := hcomp
+      by_cases h0 : f.opcode = 0
+      · simp only [h0, if_true, hfb, Option.map_some] at hv
+        by_cases hr : f.rsv = 0
+        · simp only [hr, ne_eq, not_true_eq_false, if_false] at hv
+          have hsz : f.payload.length + buf.length ≤ cfg.maxSize := by
+            by_cases hb : cfg.maxSize < f.payload.length + buf.length
+            · simp [hb] at hv
+            · omega
+          have hf : f = { fin := true, rsv := 0, opcode := 0, ext := f.ext, mask := f.mask, payload := f.payload } := by
+            cases f; simp_all
+          rw [hf, cont_step cfg st buf f.payload true f.mask f.ext hfb hsz]
+          simp only [if_true]
+          have hop : isCtl st.fragOp = false := by
+            rcases hinv.2 (by rw [hfb]; simp) with h | h <;> rw [h] <;> rfl
+          exact handle_complete_error cfg { st with fragBuf := none } st.fragOp (buf ++ f.payload) hop herr
+        · simp [hr] at hv
+      · simp only [h0, if_false, hfb, Option.map_some] at hv
+        by_cases hrz : (if cfg.deflate then f.rsv % 4 else f.rsv) = 0
+        · simp only [hrz, ne_eq, not_true_eq_false, if_false] at hv
+          split at hv <;> contradiction
+        · simp [hrz] at hv
+    | none =>
+      simp only [partOf, hfb, Option.map_none, Option.some.injEq, Prod.mk.injEq] at hcomp
+      obtain ⟨rfl, rfl, rfl⟩ := hcomp
+      by_cases h0 : f.opcode = 0
+      · simp only [h0, if_true, hfb, Option.map_none] at hv
+        split at hv
+        · contradiction
+        · split at hv <;> contradiction
+      · simp only [h0, if_false, hfb, Option.map_none] at hv
+        by_cases hrz : (if cfg.deflate then f.rsv % 4 else f.rsv) = 0
+        · simp only [hrz, ne_eq, not_true_eq_false, if_false] at hv
+          by_cases hb : cfg.maxSize < f.payload.length
+          · simp [hb] at hv
+          · simp only [hb, if_false] at hv
+            by_cases hop : f.opcode ≠ 1 ∧ f.opcode ≠ 2
+            · simp [hop] at hv
+            · have hrc : rsvCheck cfg st f.rsv f.opcode = some (cfg.deflate && f.rsv / 4 % 2 == 1) := by
+                unfold rsvCheck
+                cases hd : cfg.deflate with
+                | true => simp [hd, hc, h0] at hrz ⊢; exact hrz
+                | false => simp [hd] at hrz ⊢; exact ⟨hrz, hinv.1 hd⟩
+              have hop' : (f.opcode != 1 && f.opcode != 2) = false := by
+                by_cases h1 : f.opcode = 1
+                · simp [h1]
+                · have : f.opcode = 2 := by
+                    by_cases h2 : f.opcode = 2
+                    · exact h2
+                    · exact absurd ⟨h1, h2⟩ hop
+                  simp [this]
+              simp only [stepFrame, hrc, hc, Bool.false_and, Bool.false_eq_true, if_false, tooBig, hfb,
+                decide_eq_true_eq, hb, dispatch, h0, hop', hfin, Bool.not_true]
+              exact handle_complete_error cfg
+                { st with compressed := (cfg.deflate && f.rsv / 4 % 2 == 1), fragBuf := none } f.opcode f.payload hc herr
+        · simp [hrz] at hv
+
+theorem runFrames_append (cfg : Cfg) (a b : List Frame) : ∀ st,
+    runFrames cfg st (a ++ b)
+      = ((runFrames cfg (runFrames cfg st a).1 b).1, (runFrames cfg st a).2 ++ (runFrames cfg (runFrames cfg st a).1 b).2) := by
+  induction a with
+  | nil => intro st; simp [runFrames]
+  | cons f fs ih =>
+    intro st
+    by_cases ho : (st.status != .open) = true
+    · simp [runFrames, ho, runFrames_not_open cfg st b ho]
+    · simp [runFrames, ho, ih, List.append_assoc]
+
 end TornadoModel.C15
